@@ -12,6 +12,14 @@ from .proto import w_vm
 
 _LAST = {}
 
+STATEFUL_EVAL_PROGRAMS = [
+    "#include <Tiger-stdlib-reg-data.hera>\nSET(R1, 100)\nSET(R2, 7)\nCALL(FP_alt, div)\nMOVE(R3, R1)\nSET(R1, 100)\nSET(R2, 7)\nCALL(FP_alt, mod)\n"
+    "MOVE(R4, R1)\nMOVE(R1, R3)\nCALL(FP_alt, printint)\nHALT()\n#include <Tiger-stdlib-reg.hera>\n",
+    "SET(R1, 41)\n__eval(\"vm.store_register(5, vm.load_register(1) + 1)\")\nINC(R5, 1)\n__eval(\"vm.store_memory(100, vm.load_register(5))\")\nLOAD(R6, 0, R0)\n",
+    "#include <Tiger-stdlib-stack-data.hera>\nSET(R1, 9)\nSET(R2, 4)\nMOVE(FP_alt, SP)\nINC(SP, 5)\nSTORE(R1, 3, FP_alt)\nSTORE(R2, 4, FP_alt)\nCALL(FP_alt, div)\n"
+    "LOAD(R3, 3, FP_alt)\nDEC(SP, 5)\nHALT()\n#include <Tiger-stdlib-stack.hera>\n",
+]
+
 
 def snapshot(vm, out, diags, warn_delta):
     return (w_vm(vm, out, diags).replace(" " + proto.w_settings(vm.settings) + " ", " S "), warn_delta)
@@ -96,6 +104,16 @@ def check(seed, n, thorough):
             if mon["problem"] or not mon["ended"]:
                 continue
             progs.append((text, prog, mon["steps"]))
+    # programs whose operations act on the machine through Python (`__eval`, the Python-backed library functions): state kept
+    # on the operation objects between runs would show here
+    for text in STATEFUL_EVAL_PROGRAMS:
+        prog, out, errs, exc = progrun.load(text, progrun.make_settings())
+        if prog is None:
+            continue
+        mon = progrun.monitor_run(prog, progrun.make_settings(), 2500)
+        if mon["problem"] or not mon["ended"]:
+            continue
+        progs.append((text, prog, mon["steps"]))
     reqs, metas = [], []
     for i, (text, prog, steps) in enumerate(progs):
         case = {"text": text}
@@ -116,6 +134,15 @@ def check(seed, n, thorough):
                 violations.append({"property": "C15", "stream": "isolation", "sig": "unthrottled", "case": {"text": text, "unthrottled": True},
                                    "what": "the unthrottled run of a {}-instruction run does not end in the state that executing the "
                                            "program instruction by instruction (until it halts or pc leaves the program) ends in".format(steps)})
+        # a Program object that has been run before against the same text loaded afresh (new operation objects)
+        prog_new = progrun.load(text, progrun.make_settings())[0]
+        if prog_new is not None:
+            ref, e_ref = run_on(V.VirtualMachine(progrun.make_settings()), prog_new)
+            evals += 1
+            if ref != fresh:
+                violations.append({"property": "C15", "stream": "isolation", "sig": "reused-program", "case": {"text": text, "reused": True},
+                                   "what": "a loaded program that was run before gives, on a fresh machine, a different state / output than "
+                                           "the same text loaded afresh (state kept on the program's operation objects)"})
         vm = V.VirtualMachine(progrun.make_settings())
         a, e1 = run_on(vm, prog)
         b, e2 = run_on(vm, prog)
@@ -311,6 +338,11 @@ def replay_case(case):
         other = progrun.load(case["before"], progrun.make_settings())[0]
     t = case.get("throttle")
     mk = (lambda: progrun.make_settings(throttle=t)) if t is not None else progrun.make_settings
+    if case.get("reused"):
+        run_on(V.VirtualMachine(progrun.make_settings()), prog)
+        again, _e = run_on(V.VirtualMachine(progrun.make_settings()), prog)
+        ref, _e = run_on(V.VirtualMachine(progrun.make_settings()), progrun.load(case["text"], progrun.make_settings())[0])
+        return None if again == ref else "a loaded program that was run before behaves differently from the same text loaded afresh"
     fresh, e0 = run_on(V.VirtualMachine(mk()), prog)
     if case.get("unthrottled") and e0 == "Hang":
         return "the unthrottled run does not return"
